@@ -56,6 +56,7 @@ def big_case(rng, wrap, extra_blocks):
 def gen(rng, tier, mult=1):
     if tier == "quick":
         yield big_case(rng, 0, 2)           # the default configuration (wrap to 0), first: never cut off by the budget
+        yield big_case(rng, None, 2)        # wrapping disabled: the transfer must end with an error after block 65535
     n = (1500 if tier == "quick" else 20000) * mult
     for i in range(n):
         style = ["clean", "faulty", "faulty", "edge", "random", "abort", "silent"][i % 7]
@@ -63,7 +64,7 @@ def gen(rng, tier, mult=1):
                                   bs_choices=T.BLOCK_SIZES if i % 4 else None, handler_kind="stream",
                                   fault=(i % 11 == 0))
     if tier == "quick":
-        yield big_case(rng, rng.choice([1, None]), 2)
+        yield big_case(rng, 1, 2)
     else:
         for w in (0, 1, None):
             yield big_case(rng, w, 3)
